@@ -47,6 +47,21 @@ pub open spec fn inner_class_is(d: Seq<u8>, q: int, pool: PoolRead, e: InnerClas
     && e.inner_name == (if u16_at(d, q + 4) == 0 { None } else { Some(sp_utf8(pool, u16_at(d, q + 4) as u16)) })
     && e.flags == sp_inner_flags(u16_at(d, q + 6) as u16)
 }
+pub uninterp spec fn sp_parameter_flags(v: u16) -> ParameterFlags;
+impl vstd::std_specs::convert::FromSpecImpl<u16> for ParameterFlags {
+    open spec fn obeys_from_spec() -> bool { true }
+    open spec fn from_spec(v: u16) -> ParameterFlags { sp_parameter_flags(v) }
+}
+impl From<u16> for ParameterFlags { #[verifier::external_body] fn from(v: u16) -> (r: ParameterFlags) { unimplemented!() } }
+pub uninterp spec fn sp_parameter_name(s: JavaString) -> ParameterName;
+// `o.map(|x| x.try_into()).transpose()?` on an optional UTF-8 entry: the conversion of the string when there is one (it may refuse), None otherwise
+#[verifier::external_body] pub fn opt_try_into_parameter_name(o: Option<JavaString>) -> (res: Result<Option<ParameterName>, VErr>)
+    ensures res matches Ok(v) ==> v == (match o { Some(s) => Some(sp_parameter_name(s)), None => None }) { unimplemented!() }
+pub open spec fn method_parameter_is(d: Seq<u8>, q: int, pool: PoolRead, e: MethodParameter) -> bool {
+    e.name == (if u16_at(d, q) == 0 { None } else { Some(sp_parameter_name(sp_utf8(pool, u16_at(d, q) as u16))) })
+    && e.flags == sp_parameter_flags(u16_at(d, q + 2) as u16)
+}
+pub open spec fn u8_at(d: Seq<u8>, p: int) -> int { d[p] as int }
 pub open spec fn sp_package_opt(pool: PoolRead, i: u16) -> Option<PackageName> { Some(sp_package(pool, i)) }
 pub uninterp spec fn sp_class_sig(s: JavaString) -> ClassSignature;
 pub uninterp spec fn sp_field_sig(s: JavaString) -> FieldSignature;
@@ -115,6 +130,8 @@ VEC = {
     ('method', 'EXCEPTIONS'): ('MEv::Exceptions', 2, 2, 'sp_class_opt(*pool, u16_at(d, q) as u16) == Some(v[k])'),
     # JVMS 4.7.6: u2 inner_class_info_index, u2 outer_class_info_index (0: none), u2 inner_name_index (0: none), u2 inner_class_access_flags
     ('klass', 'INNER_CLASSES'): ('ClEv::InnerClasses', 2, 8, 'inner_class_is(d, q, *pool, v[k])'),
+    # JVMS 4.7.24: u1 parameters_count; per parameter u2 name_index (0: no name), u2 access_flags
+    ('method', 'METHOD_PARAMETERS'): ('MEv::Parameters', 1, 4, 'method_parameter_is(d, q, *pool, v[k])'),
 }
 FN_OF = dict(klass='read', field='read_field', method='read_method', component='read_record_component')
 VAR_OF = dict(klass='class_visitor', field='field_visitor', method='method_visitor', component='record_component_visitor')
@@ -208,12 +225,13 @@ def build(u):
     u.preamble('bytes.rs')
     u.preamble('rbytes.rs')
     add_classread(u, [], with_pos=False)
-    opaque(u, [t for t in RA.OPAQUE if t not in ('EnclosingMethod', 'InnerClass')] + ['MethodNameAndDesc', 'InnerClassFlags'])
+    opaque(u, [t for t in RA.OPAQUE if t not in ('EnclosingMethod', 'InnerClass', 'MethodParameter')] + ['MethodNameAndDesc', 'InnerClassFlags', 'ParameterFlags', 'ParameterName'])
     u.raw(RA.COMMON)
     u.item(T + 'method/code.rs', 'struct', 'Label', derives=['Copy', 'Clone', 'PartialEq', 'Eq'])
     u.item(T + 'method/code.rs', 'struct', 'Lv', derives=[])
     u.item(T + 'class.rs', 'struct', 'EnclosingMethod', derives=[])
     u.item(T + 'class.rs', 'struct', 'InnerClass', derives=[])
+    u.item(T + 'method.rs', 'struct', 'MethodParameter', derives=[])
     ua_specs = dict(RA.UA_SPECS)
     ua_specs['read'] = ('res', ['res matches Ok(x) ==> x.src() == (Attribute { name: name, bytes: bytes })'])
     u.item(T + 'attribute.rs', 'struct', 'Attribute', derives=[]) if False else None
@@ -270,7 +288,8 @@ def build(u):
                             body='{ let mut ' + var + ' = visitor_in; ' + body + '; Ok(' + var + ') }', line=line),
                  requires=[f'0 <= {p0}'], **extra,
                  opt_rewrites=[(r'pool\.get_optional\(([^,]+),\s*PoolRead::get_method_name_and_type\)', r'pool.get_optional_method_name_and_type(\1)'),
-                               (r'pool\.get_optional\(([^,]+),\s*PoolRead::get_class\)', r'pool.get_optional_class(\1)'), (r'pool\.get_optional\(([^,]+),\s*PoolRead::get_utf8\)', r'pool.get_optional_utf8(\1)')],
+                               (r'pool\.get_optional\(([^,]+),\s*PoolRead::get_class\)', r'pool.get_optional_class(\1)'), (r'pool\.get_optional\(([^,]+),\s*PoolRead::get_utf8\)', r'pool.get_optional_utf8(\1)'),
+                               (r'(pool\.get_optional_utf8\(\w+\.read_u16\(\)\?\)\?)\.map\(\|x\| x\.try_into\(\)\)\.transpose\(\)\?', r'opt_try_into_parameter_name(\1)?')],
                  ensures=ens + [C(f'C01.arm.{lv}.{name if name != "_" else "unknown"}.data-untouched', f'final(reader).data() == {d0}')])
             first = False
     u.drop('interested attribute arms of read / read_field / read_method / read_record_component lifted to functions arm_<level>_<ATTRIBUTE>(reader, pool, visitor, length, attribute_name) '
